@@ -93,8 +93,8 @@ class CRunner:
         self.urls = []
 
     def cfg_term(self):
-        return '{| cc_request_timeout := %s; cc_connect_handler_disconnects := %s; cc_quirks := {| cq_handshake_recv_timeout := %s |} |}' % (
-            qZ(REQ_TIMEOUT), qbool(self.connect_disconnects), qbool(self.kind == 'threaded'))
+        return '{| cc_request_timeout := %s; cc_connect_handler_disconnects := %s; cc_quirks := {| cq_handshake_recv_timeout := %s |} |}' % (  # both clients since fix D28
+            qZ(REQ_TIMEOUT), qbool(self.connect_disconnects), qbool(True))
 
     def pending(self, method):
         return sorted(h for h, p in self.d.pending.items() if p.method == method)
